@@ -9,6 +9,8 @@
 package main
 
 import (
+	"crypto/sha256"
+	mrand "math/rand"
 	"bufio"
 	"bytes"
 	"context"
@@ -48,6 +50,8 @@ var out = bufio.NewWriterSize(os.Stdout, 1<<20)
 // world: shared across factories of one case
 
 type world struct {
+	nonces     map[[44]byte]bool // (sha256(key), nonce) pairs of every successful AEAD encryption of this world
+	nonceReuse int
 	logLines []string
 	curPay   []byte
 	inuse0   int64
@@ -118,6 +122,11 @@ func renderings(b []byte) []string {
 
 // logLeak scans the lines logged during the operation for any key material or the payload.
 func (w *world) logLeak() string {
+	if w.nonceReuse > 0 {
+		w.nonceReuse = 0
+		w.logLines = nil
+		return "nonce-reuse"
+	}
 	if len(w.logLines) == 0 {
 		return "clean"
 	}
@@ -262,6 +271,20 @@ func (s spyAEAD) Encrypt(data, key []byte) ([]byte, error) {
 		w.calls = append(w.calls, "AE:"+kn+":"+pc+":err")
 	} else {
 		w.calls = append(w.calls, "AE:"+kn+":"+pc+":ok")
+		if len(r) >= 12 {
+			// documented layout: the nonce is the last 12 bytes; a (key, nonce) pair must never repeat
+			var id [44]byte
+			h := sha256.Sum256(key)
+			copy(id[:32], h[:])
+			copy(id[32:], r[len(r)-12:])
+			if w.nonces == nil {
+				w.nonces = map[[44]byte]bool{}
+			}
+			if w.nonces[id] {
+				w.nonceReuse++
+			}
+			w.nonces[id] = true
+		}
 	}
 	return r, err
 }
@@ -694,6 +717,9 @@ func (w *world) exec(line string) {
 			// the payload is handed over as a window of a larger caller-owned buffer (spare capacity behind
 			// it, like a pooled buffer or bytes.Buffer output): the SDK must neither write into that buffer
 			// nor return a record that aliases it - the buffer is scribbled over right after the call
+			// nonces and keys must come from a cryptographic source: the process-global math/rand state
+			// is reset before every encrypt, so anything drawn from it repeats from one call to the next
+			mrand.Seed(20260930)
 			pb := payloadBytes(pay)
 			arena := make([]byte, len(pb)+112)
 			data := arena[16 : 16+len(pb)]
